@@ -1,5 +1,6 @@
 import E3fpVerif.Codec
 import E3fpVerif.Model.SdfIO
+import E3fpVerif.Model.SmilesIO
 namespace E3fpVerif
 open Lean
 
@@ -14,6 +15,20 @@ def sdfOp (op : String) (j : Json) : Except String Json := do
     let (confs, energies) := readRecords recs rlim
     return okJ (Json.mkObj [("n", natJ confs.length), ("confs", natsToJson confs),
       ("energies", if energies.isEmpty then Json.null else Json.arr ((storeEnergies energies).map ratToJson).toArray)])
+  | "sdf.smiles_table" =>
+    -- write a name -> SMILES table to lines, or read lines back into a table
+    let unique ← jBool (jFieldD j "unique" |> fun x => if x == .null then Json.bool false else x)
+    let header ← jBool (jFieldD j "has_header" |> fun x => if x == .null then Json.bool false else x)
+    let pairJ := fun (e : List Char × List Char) => Json.arr #[Json.str (String.mk e.1), Json.str (String.mk e.2)]
+    match jFieldD j "table" with
+    | .null =>
+      let lines ← jList jStr (← jField j "lines")
+      return okJ (Json.arr ((readTable (lines.map String.toList) unique header).map pairJ).toArray)
+    | t =>
+      let tbl ← jList (jPair jStr jStr) t
+      let lines := writeTable (tbl.map (fun e => (e.1.toList, e.2.toList)))
+      return okJ (Json.mkObj [("lines", Json.arr (lines.map (fun l => Json.str (String.mk l))).toArray),
+        ("back", Json.arr ((readTable lines unique header).map pairJ).toArray)])
   | _ => .error s!"unknown op {op}"
 
 end E3fpVerif
